@@ -259,7 +259,16 @@ pub fn run_program(s: &Setup, schedule: &[(u32, Adv)], until_state: Option<&str>
                         pdu.extend_from_slice(&ext);
                         Some(rc::encode(&RefFrame::Data { da: s.ts, sa, dsap: Some(62), ssap: Some(60), fc: 0x08, pdu }))
                     }
-                    Adv::RequestToUs => Some(rc::encode(&RefFrame::Data { da: s.ts, sa: partner, dsap: Some(61), ssap: Some(62), fc: 0x6C, pdu: vec![0x80, 1, 1, 11, 0x12, 0x34, 0] })),
+                    Adv::RequestToUs => {
+                        // a request addressed to the station: from a peripheral's address (as a second
+                        // master misconfigured with that address would send) or from the partner
+                        let from_peripheral = s.pers.first().map(|p| p.0);
+                        Some(match (from_peripheral, out.polls % 3) {
+                            (Some(sa), 0) => rc::encode(&RefFrame::status_request(s.ts, sa)),
+                            (Some(sa), 1) => rc::encode(&RefFrame::Data { da: s.ts, sa, dsap: None, ssap: None, fc: 0x7D, pdu: vec![1, 2] }),
+                            _ => rc::encode(&RefFrame::Data { da: s.ts, sa: partner, dsap: Some(61), ssap: Some(62), fc: 0x6C, pdu: vec![0x80, 1, 1, 11, 0x12, 0x34, 0] }),
+                        })
+                    }
                     Adv::Garbage(g) => Some(g),
                     Adv::MutateOwn(pos, bit) => last_own.clone().map(|mut v| {
                         let i = pos as usize % v.len();
